@@ -425,5 +425,9 @@ func FuzzMethodSetCase(r *rand.Rand, name string) *Case {
 	c := RawCase(name, map[string]string{"p/input.go": sb.String()}, nil, []string{"./p"})
 	c.Feature("fuzz", "methodset")
 	c.Note = strings.Join(note, " ; ")
+	if strings.Contains(sb.String(), "goverter:wrapErrors") {
+		// wrapErrors somewhere in the method set: fmt is a legitimate import of the emitted file (C18)
+		c.AllowImports = []string{"fmt"}
+	}
 	return c
 }
